@@ -7,7 +7,7 @@ from typing import Dict, List, Optional, Set
 
 from ..astutil import arg_of, call_name, calls, enclosing_loops, guards, kwarg, last_attr, stmt_key, txt, walk_local
 from ..cfg import CFG
-from ..flow import inline_locals, bound_from, provenance
+from ..flow import inline_locals, inline_reaching, bound_from, provenance
 from ..index import AnalysisError, ClassInfo, dotted
 from ..kernel import OutsideFragment, decide, parse, rename
 from ..report import Ctx
@@ -336,11 +336,18 @@ def _fold(ctx: Ctx, qual: str, kind: str) -> None:
     sites = [c for c in _condition_met_calls(func) if not _negation_idiom(arg_of(c, 0, "met") or ast.Constant(0))]
     if not sites:
         raise AnalysisError(f"{qual}: no accumulated verdict found")
+    fcfg = CFG(func)
     for call in sites:
         acc = arg_of(call, 0, "met")
-        if isinstance(acc, ast.Call) and call_name(acc) in ("all", "any"):
-            ok = call_name(acc) == ("all" if kind == "and" else "any")
-            ctx.ob("R01.5", RP, call, qual, "fold", ok, f"'{kind}' combines sub-verdicts with {kind}", form=txt(acc))
+        resolved = inline_reaching(fcfg, call, acc) if acc is not None else None
+        if isinstance(resolved, ast.Call) and call_name(resolved) in ("all", "any"):
+            ok = call_name(resolved) == ("all" if kind == "and" else "any")
+            # the folded values are the sub-verdicts' truth values
+            gen = resolved.args[0] if resolved.args else None
+            ok = ok and isinstance(gen, (ast.GeneratorExp, ast.ListComp)) and (
+                txt(gen.elt).endswith(".met") or "get_satisfied" in txt(gen.elt)) and not gen.generators[0].ifs
+            ctx.ob("R01.5", RP, call, qual, "fold", ok, f"'{kind}' combines sub-verdicts with {kind}", form=txt(resolved))
+            _fold_operands(ctx, func, qual)
             continue
         if not isinstance(acc, ast.Name):
             ctx.cannot("R01.5", RP, call, qual, "fold", f"verdict is neither a name nor all()/any(): {txt(acc)}")
@@ -382,12 +389,16 @@ def _fold(ctx: Ctx, qual: str, kind: str) -> None:
                         for u in ups) and len(ups) >= 2
             ctx.ob("R01.5", RP, call, qual, "matches union", union,
                    "reason profiles of the operands are merged by set union", form="; ".join(stmt_key(u) for u in ups))
-        # the operands folded are all operands, each evaluated once with the same context
-        comp = [n for n in walk_local(func) if isinstance(n, ast.ListComp)]
-        ok_ops = any("self.operands" in txt(c.generators[0].iter) and "get_satisfied(details, local_only)" in txt(c.elt)
-                     for c in comp)
-        ctx.ob("R01.5", RP, func, qual, "operands", ok_ops,
-               "every operand is evaluated, with the caller's details and local_only", form="; ".join(txt(c) for c in comp))
+        _fold_operands(ctx, func, qual)
+
+
+def _fold_operands(ctx: Ctx, func: ast.AST, qual: str) -> None:
+    # the operands folded are all operands, each evaluated once with the same context
+    comp = [n for n in walk_local(func) if isinstance(n, ast.ListComp)]
+    ok_ops = any("self.operands" in txt(c.generators[0].iter) and "get_satisfied(details, local_only)" in txt(c.elt)
+                 and not c.generators[0].ifs for c in comp)
+    ctx.ob("R01.5", RP, func, qual, "operands", ok_ops,
+           "every operand is evaluated, with the caller's details and local_only", form="; ".join(txt(c) for c in comp))
 
 
 def r01_5(ctx: Ctx) -> None:
@@ -395,12 +406,15 @@ def r01_5(ctx: Ctx) -> None:
     _fold(ctx, "Conditions.are_subconditions_satisfied", "or")
     # single-operand shortcut delegates to that operand unchanged
     func = ctx.fn(RP, "Conditions.are_subconditions_satisfied")
-    first = func.body[0] if not isinstance(func.body[0], ast.Expr) else func.body[1]
-    ok = isinstance(first, ast.If) and txt(first.test) == "len(self.sub_conditions) == 1" and any(
-        isinstance(s, ast.Return) and txt(s.value) == "self.sub_conditions[0].get_satisfied(details, local_only)"
-        for s in first.body)
+    from ..flow import fact_texts
+    scfg = CFG(func)
+    singles = [r for r in walk_local(func) if isinstance(r, ast.Return) and r.value is not None
+               and fact_texts(scfg, r) & {"len(self.sub_conditions) == 1", "1 == len(self.sub_conditions)"}]
+    ok = len(singles) == 1 and txt(inline_reaching(scfg, singles[0], singles[0].value)) == \
+        "self.sub_conditions[0].get_satisfied(details, local_only)"
+    first = singles[0] if singles else func
     ctx.ob("R01.5", RP, first, "Conditions.are_subconditions_satisfied", "single operand", ok,
-           "a group with one operand is that operand's verdict", form=stmt_key(first))
+           "a group with one operand is that operand's verdict", form=stmt_key(first) if singles else "")
     base = ctx.fn(RP, "Conditions.is_satisfied")
     site = _condition_met_calls(base)
     ok = len(site) == 1 and _negation_idiom(arg_of(site[0], 0, "met")) == "xor" and \
